@@ -1,12 +1,12 @@
 #!/bin/bash
 # tools/try_r3.sh <PID>: file the round-3 seed of /var/tmp/seedwt/r3-<PID>/seed as seeded/<PID>-3 and run the check on it
-PID=$1; WT=/var/tmp/seedwt/r3-$PID
-mkdir -p $WT/SEEDED/3; cp $WT/seed/* $WT/SEEDED/3/
+PID=$1; K=${2:-3}; WT=/var/tmp/seedwt/r3-$PID
+mkdir -p $WT/SEEDED/$K; cp $WT/seed/* $WT/SEEDED/$K/
 TESTS=$(python3 -c "import json;print(' '.join(json.load(open('$WT/seed/meta.json')).get('tests_run',[])))")
-/verif/tools/try_seed.sh $PID $WT 3 $TESTS
+/verif/tools/try_seed.sh $PID $WT $K $TESTS
 python3 - <<PY
 import json
-m=json.load(open('/verif/seeded/$PID-3/meta.json')); a=json.load(open('$WT/seed/meta.json'))
-m['title']=a.get('title'); m['needs']=a.get('needs'); m['description']=a.get('description'); m['round']=3
-json.dump(m,open('/verif/seeded/$PID-3/meta.json','w'),indent=1)
+m=json.load(open('/verif/seeded/$PID-$K/meta.json')); a=json.load(open('$WT/seed/meta.json'))
+m['title']=a.get('title'); m['needs']=a.get('needs'); m['description']=a.get('description'); m["round"]=$K
+json.dump(m,open('/verif/seeded/$PID-$K/meta.json','w'),indent=1)
 PY
